@@ -38,11 +38,13 @@ func (q *PointerQueue) Dequeue() (data unsafe.Pointer, ok bool) {
 		}
 		// cq.next is not empty, subsequent entry will be insert into cq.next instead of cq.
 		// So if cq is empty, we can move it into ncqpool.
+		verifYield(2)
 		atomic.StoreInt64(&cq.threshold, int64(scqsize*2)-1)
 		data, ok = cq.Dequeue()
 		if ok {
 			return
 		}
+		verifYield(3)
 		if atomic.CompareAndSwapPointer((*unsafe.Pointer)(unsafe.Pointer(&q.head)), (unsafe.Pointer(cq)), nex) {
 			// We can't ensure no other goroutines will access cq.
 			// The cq can still be previous dequeue's cq.
@@ -60,6 +62,7 @@ func (q *PointerQueue) Enqueue(data unsafe.Pointer) bool {
 			atomic.CompareAndSwapPointer((*unsafe.Pointer)(unsafe.Pointer(&q.tail)), (unsafe.Pointer(cq)), nex)
 			continue
 		}
+		verifYield(1)
 		if cq.Enqueue(data) {
 			return true
 		}
@@ -130,6 +133,7 @@ func (q *pointerSCQ) Enqueue(data unsafe.Pointer) bool {
 			// will insert this data into next SCQ.
 			return false
 		}
+		verifYield(4)
 		entAddr := &q.ring[cacheRemap16Byte(T)]
 		cycleT := T / scqsize
 	eqretry:
@@ -149,6 +153,7 @@ func (q *pointerSCQ) Enqueue(data unsafe.Pointer) bool {
 				goto eqretry
 			}
 			// Success.
+			verifYield(7)
 			if atomic.LoadInt64(&q.threshold) != (int64(scqsize)*2)-1 {
 				atomic.StoreInt64(&q.threshold, (int64(scqsize)*2)-1)
 			}
@@ -172,6 +177,7 @@ func (q *pointerSCQ) Dequeue() (data unsafe.Pointer, ok bool) {
 		// Decrement HEAD, try to release an entry.
 		H := atomic.AddUint64(&q.head, 1)
 		H -= 1 // we need previous value
+		verifYield(5)
 		entAddr := &q.ring[cacheRemap16Byte(H)]
 		cycleH := H / scqsize
 	dqretry:
@@ -222,6 +228,7 @@ func (q *pointerSCQ) fixstate(originalHead uint64) {
 			// The queue has been closed, or in normal state.
 			return
 		}
+		verifYield(6)
 		if atomic.CompareAndSwapUint64(&q.tail, tailvalue, head) {
 			return
 		}
